@@ -803,7 +803,7 @@ Example C18_views_owned_always_ex :
   owner_level (wcz true) 3 true (ser wcomp es_sn) = Ok (Some 1%nat) /\
   owner_level (wcz true) 3 true (ser wcomp es_nest) = Ok (Some 2%nat) /\
   owner_level (wcz true) 3 true (ser wcomp es_bad) = Ok (Some 1%nat) /\
-  owner_level (wcz true) 2 true (ser wcomp es_nest) = Err EOutOfFuel /\
+  owner_level (wcz true) 2 true (ser wcomp es_nest) = Err EUnsupportedCompression /\
   map (fun k => owner_level (wcz true) 3 true (firstn k (ser wcomp es_nest))) [0; 156; 157; 300]%nat
   = [Ok None; Ok None; Ok (Some 2%nat); Ok (Some 2%nat)].
 Proof. vm_compute. repeat split; reflexivity. Qed.
@@ -849,7 +849,7 @@ Example C18_level_is_chain_depth_ex :
 Proof. split; [exact es_nest_chain|]. vm_compute. split; reflexivity. Qed.
 
 (* C18_level_defined / _err / _panic: the failing outcomes coincide as well.
-   - not enough depth for the nesting: EOutOfFuel on both sides;
+   - nesting beyond the depth bound: UnsupportedCompression on both sides;
    - a flipped payload byte under CRC validation: CorruptMessage on both sides;
    - attributes 3 (unknown codec): UnsupportedCompression;
    - a size field covering one byte more than the fields, debug build: the debug_assert panic. *)
@@ -860,8 +860,8 @@ Definition slack_msg : bytes :=
   enc_i64 0 ++ enc_i32 (4 + blen body) ++ enc_i32 (crc32 body) ++ body.
 
 Example C18_level_failures_ex :
-  (from_slice (wcz true) 2 true 0 (ser wcomp es_nest) = Err EOutOfFuel /\
-   view_level (wcz true) 2 true (ser wcomp es_nest) = Err EOutOfFuel) /\
+  (from_slice (wcz true) 2 true 0 (ser wcomp es_nest) = Err EUnsupportedCompression /\
+   view_level (wcz true) 2 true (ser wcomp es_nest) = Err EUnsupportedCompression) /\
   (from_slice (wcz true) 2 true 0 bad_crc = Err (EKafka KC_CorruptMessage) /\
    view_level (wcz true) 2 true bad_crc = Err (EKafka KC_CorruptMessage) /\
    owner_level (wcz true) 2 true bad_crc = Err (EKafka KC_CorruptMessage)) /\
